@@ -65,7 +65,7 @@ THEOREMS = ["PyYetiVerif.C10." + n for n in (
     "resp_switch_G1_G2 fdeFreq_neg psd_quadratic_scaling_full psd_quadratic_scaling_input "
     # locate
     "find_unique_spec find_unique_length findap_uses_find_unique find_unique_boundary_example "
-    "find_duplicates_eq_spec find_duplicates_length find_duplicates_neg_tol find_duplicates_example "
+    "find_duplicates_eq_spec find_duplicates_iff find_duplicates_length find_duplicates_neg_tol find_duplicates_example "
 ).split()]
 TRUSTED = [
     "correspondence harness harness/props/c10.py (exact comparison on dyadic inputs; bit-for-bit on srs/Amax/binamps/count/bincount "
@@ -1523,6 +1523,10 @@ def _oracle_binify(ctx, cyc, right, check, specs):
                 if in_m and in_a:
                     want[i, j] += c
     if covered or check:
+        # the statement of binify_cell_sum / binify_explicit_cell_sum / binify_auto_cell_sum, cell by cell (`want` above)
+        ctx.count("oracle:binify-cell-sum")
+        if (want > np.max([c for _, _, c in cyc])).any() or len(cyc) > np.count_nonzero(want):
+            ctx.count("oracle:binify-cell-sum:several-cycles-in-one-cell-or-dropped")
         if covered and T.sum() != total:
             ctx.fail("binify-count-not-conserved-right=%d" % right, "bins cover the data but the table total differs from the cycle count",
                      inp, float(T.sum()), total)
